@@ -752,6 +752,18 @@ class FnCtx:
         # leaving loops
         for h in list(st.loops.keys()):
             if h[0] == id(fr) and b not in cfg.loops[h[1]]:
+                if fr is self.top and not cfg.exitonly[b]:
+                    spec = self.contract.loops.get(cfg.ordinal.get(h[1]))
+                    if spec is not None and spec.exits:
+                        ev = self.evaluator(st, fr, old=self.entry_state.with_sink(st))
+                        for c in spec.exits:
+                            name = '%s.loop%d.exit[%s]' % (self.short, cfg.ordinal[h[1]], c.label)
+                            try:
+                                g = self.inv_formula(st, fr, ev, c, h[1])
+                            except SpecError as ex:
+                                self.stale(name, str(ex))
+                                continue
+                            self.prove(st, g, name, 'loop-exit', None, c.text, assume_after=True)
                 del st.loops[h]
         instrs = blk['instrs']
         nphi = 0
